@@ -183,6 +183,117 @@ theorem inter_isEmpty_iff (c d : Interval ℝ) :
   refine forall_congr' fun v => ?_
   rw [Bool.eq_false_iff, Ne, inter_iff]
 
+/-! ## comparisons with a value, comparisons of intervals, the bound setters -/
+
+/-- `c < v`, `c > v`, `c <= v`, `c >= v` (Constraints.h:195-213) are sound: every accepted value
+(infinite doubles included) is below / above `v` — what the driver evaluates on the
+implementation's answers (clause `cmp_sound`) -/
+theorem cmp_sound (c : Interval ℝ) (v : Bound ℝ) (x : EReal) (hx : x ∈ c.denote) :
+    (c.ltV v = true → x < v.toEReal) ∧ (c.gtV v = true → v.toEReal < x) ∧
+    (c.leV v = true → x ≤ v.toEReal) ∧ (c.geV v = true → v.toEReal ≤ x) := by
+  rw [mem_denote] at hx
+  obtain ⟨h1, h2⟩ := hx
+  refine ⟨?_, ?_, ?_, ?_⟩
+  · unfold ltV
+    cases hi : c.inclHi <;> simp only [hi, Bool.false_eq_true, if_false, if_true] at h2 ⊢ <;>
+      simp only [Bound.ltb_iff, Bound.leb_iff] <;> intro h <;> order
+  · unfold gtV
+    cases hi : c.inclLo <;> simp only [hi, Bool.false_eq_true, if_false, if_true] at h1 ⊢ <;>
+      simp only [Bound.gtb_iff, Bound.geb_iff] <;> intro h <;> order
+  · unfold leV
+    simp only [Bound.leb_iff]; intro h
+    split_ifs at h2 <;> order
+  · unfold geV
+    simp only [Bound.geb_iff]; intro h
+    split_ifs at h1 <;> order
+
+/-- … and exact on an interval with `lo < hi`: `c < v` iff every accepted value is below `v`,
+`c <= v` iff every accepted value is at most `v` (and symmetrically) -/
+theorem ltV_iff (c : Interval ℝ) (v : Bound ℝ) (h : c.lo.toEReal < c.hi.toEReal) :
+    c.ltV v = true ↔ ∀ x ∈ c.denote, x < v.toEReal := by
+  constructor
+  · intro hl x hx; exact (cmp_sound c v x hx).1 hl
+  · intro hall
+    unfold ltV
+    cases hi : c.inclHi
+    · simp only [Bool.false_eq_true, if_false, Bound.leb_iff]
+      by_contra hn
+      have hv : v.toEReal < c.hi.toEReal := not_le.1 hn
+      obtain ⟨y, hy1, hy2⟩ := exists_between (max_lt h hv)
+      have hy : y ∈ c.denote := by
+        rw [mem_denote, hi]
+        simp only [Bool.false_eq_true, if_false]
+        exact ⟨by split_ifs <;> [exact (lt_of_le_of_lt (le_max_left _ _) hy1).le; exact lt_of_le_of_lt (le_max_left _ _) hy1], hy2⟩
+      exact absurd (hall y hy) (not_lt.2 (lt_of_le_of_lt (le_max_right _ _) hy1).le)
+    · simp only [if_true, Bound.ltb_iff]
+      apply hall
+      rw [mem_denote, hi]
+      simp only [if_true, le_refl, and_true]
+      split_ifs <;> [exact h.le; exact h]
+
+theorem leV_iff (c : Interval ℝ) (v : Bound ℝ) (h : c.lo.toEReal < c.hi.toEReal) :
+    c.leV v = true ↔ ∀ x ∈ c.denote, x ≤ v.toEReal := by
+  constructor
+  · intro hl x hx; exact (cmp_sound c v x hx).2.2.1 hl
+  · intro hall
+    unfold leV
+    rw [Bound.leb_iff]
+    by_contra hn
+    have hv : v.toEReal < c.hi.toEReal := not_le.1 hn
+    obtain ⟨y, hy1, hy2⟩ := exists_between (max_lt h hv)
+    have hy : y ∈ c.denote := by
+      rw [mem_denote]
+      refine ⟨?_, ?_⟩
+      · split_ifs <;> [exact (lt_of_le_of_lt (le_max_left _ _) hy1).le; exact lt_of_le_of_lt (le_max_left _ _) hy1]
+      · split_ifs <;> [exact hy2.le; exact hy2]
+    exact absurd (hall y hy) (not_le.2 (lt_of_le_of_lt (le_max_right _ _) hy1))
+
+/-- `operator==` compares bounds and flags (not the precision); equal intervals accept the same
+values; `operator!=` is its negation -/
+theorem eqI_iff (c d : Interval ℝ) : c.eqI d = true ↔
+    c.lo.toEReal = d.lo.toEReal ∧ c.inclLo = d.inclLo ∧ c.hi.toEReal = d.hi.toEReal ∧ c.inclHi = d.inclHi := by
+  unfold eqI
+  simp only [Bool.and_eq_true, Bound.eqb_iff, beq_iff_eq]
+  tauto
+
+theorem eqI_denote (c d : Interval ℝ) (h : c.eqI d = true) : c.denote = d.denote := by
+  obtain ⟨h1, h2, h3, h4⟩ := (eqI_iff c d).1 h
+  ext x
+  rw [mem_denote, mem_denote, h1, h2, h3, h4]
+
+theorem neI_eq_not_eqI (c d : Interval ℝ) : c.neI d = !c.eqI d := by
+  unfold neI eqI
+  cases Bound.eqb c.lo d.lo <;> cases Bound.eqb c.hi d.hi <;> cases c.inclLo <;> cases d.inclLo <;>
+    cases c.inclHi <;> cases d.inclHi <;> rfl
+
+/-- `operator<=(IntervalConstraint)` ("is included or equal in another one", Constraints.h:396)
+compares the bounds only: it is inclusion of the *closures*.  It is not inclusion of the
+intervals — `[0,1] <= ]0,1[` is true (`leI_flags_witness`).  No clause of C01 is about this
+operator and nothing in the library calls it; the model is bug-compatible. -/
+theorem leI_iff (c d : Interval ℝ) : c.leI d = true ↔ d.lo.toEReal ≤ c.lo.toEReal ∧ c.hi.toEReal ≤ d.hi.toEReal := by
+  unfold leI
+  simp only [Bool.and_eq_true, Bound.geb_iff, Bound.leb_iff]
+
+theorem leI_flags_witness :
+    let c : Interval ℝ := Interval.make (.fin 0) (.fin 1) true true 0
+    let d : Interval ℝ := Interval.make (.fin 0) (.fin 1) false false 0
+    c.leI d = true ∧ c.isCorrect 0 = true ∧ d.isCorrect 0 = false := by
+  simp [Interval.make, leI, isCorrect, isCorrectB, Bound.geb, Bound.gtb, Bound.leb, Bound.ltb]
+
+/-- `setLowerBound(b, strict)` / `setUpperBound(b, strict)` replace one end and nothing else:
+afterwards exactly the values above (below) the new end, and accepted at the other end, are accepted -/
+theorem setLowerBound_iff (c : Interval ℝ) (b : Bound ℝ) (strict : Bool) (v : ℝ) :
+    (c.setLowerBound b strict).isCorrect v = true ↔
+      (if strict then b.toEReal < v else b.toEReal ≤ v) ∧ (if c.inclHi then (v : EReal) ≤ c.hi.toEReal else (v : EReal) < c.hi.toEReal) := by
+  rw [isCorrect_iff_bounds]
+  cases strict <;> simp [setLowerBound]
+
+theorem setUpperBound_iff (c : Interval ℝ) (b : Bound ℝ) (strict : Bool) (v : ℝ) :
+    (c.setUpperBound b strict).isCorrect v = true ↔
+      (if c.inclLo then c.lo.toEReal ≤ v else c.lo.toEReal < v) ∧ (if strict then (v : EReal) < b.toEReal else (v : EReal) ≤ b.toEReal) := by
+  rw [isCorrect_iff_bounds]
+  cases strict <;> simp [setUpperBound]
+
 /-! ## limits -/
 
 /-- `getLimit` answers the request itself when it is accepted, otherwise the bound on the
